@@ -849,10 +849,13 @@ func (ls *LanceroSource) distributeData(buffersMsg BuffersChanType) *dataBlock {
 	// external trigger search must occur before Mix, since mix alters FB in place
 	externalTriggerRowcounts := make([]int64, 0)
 	nrows := ls.active[0].nrows
+	ncols := ls.active[0].ncols
 	for frame := 0; frame < framesUsed; frame++ { // frame within this block, need to add ls.nextFrameNum for consistent timing across blocks
 		for row := 0; row < nrows; row++ { // search the first column for frame bit level triggers
-			channelIndex := row*2 + 1
-			v := datacopies[channelIndex][frame]
+			// datacopies is still in READOUT order here (r0c0, r0c1, ... r1c0, ...; error then feedback),
+			// so the feedback word of this row in column 0 is at index 2*row*ncols+1.
+			readoutIndex := row*ncols*2 + 1
+			v := datacopies[readoutIndex][frame]
 			externalTriggerState := (v & 0x02) == 0x02 // external trigger bit is 2nd least significant bit in feedback (odd channelIndex)
 			if externalTriggerState && !ls.externalTriggerLastState {
 				if ls.mixedRowCounts {
